@@ -190,10 +190,7 @@ fn scn_read_stream(s: &Scn) -> Verdicts {
     let need = s.need;
     let r = Arc::new(r);
     let r2 = r.clone();
-    let actor = std::thread::Builder::new()
-        .name("c04-actor".into())
-        .spawn(move || if use_eof { r2.eof() } else { r2.wait(need) })
-        .unwrap();
+    let actor = spawn_supervised("c04-actor", move || if use_eof { r2.eof() } else { r2.wait(need) });
     let mut writer_dropped_before_return = s.cut == "before-call";
     if let Some(g) = &gate {
         if !g.wait_parked(Duration::from_secs(3)) {
@@ -201,7 +198,7 @@ fn scn_read_stream(s: &Scn) -> Verdicts {
             // liveness read): legal, nothing to race.
             out.inconclusive = Some("script: actor did not reach the park site".into());
             disarm_all();
-            let _ = actor.join();
+            let _ = actor.join_or_blocked(Duration::from_secs(5));
             // not reaching the liveness read is normal when b >= need; eof()
             // answers before touching the buffer while the writer is alive
             if (s.b >= s.need && !use_eof) || (use_eof && s.cut == "after-liveness-read") {
@@ -233,7 +230,14 @@ fn scn_read_stream(s: &Scn) -> Verdicts {
     } else {
         out.confirmed = true;
     }
-    let verdict = actor.join().unwrap();
+    let verdict = match actor.join_or_blocked(Duration::from_secs(5)) {
+        Ok(v) => v.unwrap(),
+        Err(why) => {
+            disarm_all();
+            out.findings.push(("reader-blocked-forever".into(), format!("ReadStream::{} never returned after the writer had committed and left: {why}", if use_eof { "eof()".to_string() } else { format!("wait({need})") })));
+            return out;
+        }
+    };
     disarm_all();
     // Safety.
     let readable = r.read_buf().unwrap().0.len();
@@ -318,12 +322,12 @@ fn scn_write_stream(s: &Scn) -> Verdicts {
     let need = s.need;
     let w = Arc::new(w);
     let w2 = w.clone();
-    let actor = std::thread::Builder::new().name("c04-actor".into()).spawn(move || w2.wait(need)).unwrap();
+    let actor = spawn_supervised("c04-actor", move || w2.wait(need));
     let mut gone = s.cut == "before-call";
     if let Some(g) = &gate {
         if !g.wait_parked(Duration::from_secs(3)) {
             disarm_all();
-            let _ = actor.join();
+            let _ = actor.join_or_blocked(Duration::from_secs(5));
             if s.b < s.need {
                 out.inconclusive = Some("script: actor did not reach the park site".into());
             }
@@ -340,7 +344,14 @@ fn scn_write_stream(s: &Scn) -> Verdicts {
     } else {
         out.confirmed = true;
     }
-    let verdict = actor.join().unwrap();
+    let verdict = match actor.join_or_blocked(Duration::from_secs(5)) {
+        Ok(v) => v.unwrap(),
+        Err(why) => {
+            disarm_all();
+            out.findings.push(("writer-blocked-forever".into(), format!("WriteStream::wait({need}) never returned after the reader had consumed and left: {why}")));
+            return out;
+        }
+    };
     disarm_all();
     if verdict && !gone {
         out.findings.push(("never-verdict-with-live-reader".into(), format!("WriteStream::wait({need}) returned true while the reader was alive")));
@@ -352,9 +363,18 @@ fn scn_write_stream(s: &Scn) -> Verdicts {
         let mut told = false;
         for _ in 0..4 {
             calls += 1;
-            if w.wait(need) {
-                told = true;
-                break;
+            let w3 = w.clone();
+            match spawn_supervised("c04-waiter", move || w3.wait(need)).join_or_blocked(Duration::from_secs(5)) {
+                Ok(v) => {
+                    if v.unwrap() {
+                        told = true;
+                        break;
+                    }
+                }
+                Err(why) => {
+                    out.findings.push(("writer-blocked-forever".into(), format!("reader gone, free {} < need {need}: WriteStream::wait never returned: {why}", w.free())));
+                    return out;
+                }
             }
         }
         if !told || calls > 2 {
@@ -601,6 +621,26 @@ fn scn_mtgraph(s: &Scn) -> Verdicts {
         out.inconclusive = Some("script: source did not exit".into());
     }
     gate.release();
+    // MTGraph::run() joins its block threads; if those are all parked for good
+    // (no wake-up at all for 5 s) it will never return.
+    let names: Vec<String> = ["GatedSource", "AddConst", "CollectU32"].iter().map(|s| s.to_string()).collect();
+    let mut mark: Option<(Instant, Vec<(i32, u64)>)> = None;
+    while !runner.is_finished() {
+        std::thread::sleep(Duration::from_millis(40));
+        let now: Vec<(i32, u64)> = tasks_named(&names).into_iter().filter_map(|t| task_stat(t).and_then(|(st, v)| if st == 'S' { Some((t, v)) } else { None })).collect();
+        let all_asleep = !now.is_empty() && now.len() == tasks_named(&names).len();
+        match (&mark, all_asleep) {
+            (Some((t0, v0)), true) if *v0 == now => {
+                if t0.elapsed() >= Duration::from_secs(5) {
+                    disarm_all();
+                    out.findings.push(("mtgraph-blocked-forever".into(), format!("MTGraph::run() did not return: its remaining block threads {now:?} (tid, voluntary context switches) slept without a single wake-up for 5 s")));
+                    return out;
+                }
+            }
+            (_, true) => mark = Some((Instant::now(), now)),
+            _ => mark = None,
+        }
+    }
     let res = runner.join().unwrap();
     disarm_all();
     match res {
